@@ -40,7 +40,7 @@ ASSUMPTIONS = ["client_replay_concurrency = 1; plain-http flows (no TLS towards 
                "a server that never answers keeps its replay in flight for ever (ReplayHandler has no idle timeout)"]
 LEVEL_TEXT = "randomised exploration of replay schedules under a virtual clock; oracle is a queue model + state equality"
 LEVEL_NOTE = "trusts lib/simloop.py fakes, mitmproxy.test.tflow constructors and Flow.get_state() as the notion of flow state"
-QUICK_N, THOROUGH_N = 12_000, 400_000
+QUICK_N, THOROUGH_N = 20_000, 400_000  # ~60 scenarios/s/core (a real Master + addons per scenario)
 
 KINDS = ["fresh", "fresh", "fresh", "with-response", "with-response", "user-modified", "live", "intercepted",
          "no-content", "tcp", "udp", "dns", "websocket", "fresh", "with-response", "fresh"]
